@@ -339,8 +339,14 @@ def run_shard(spec, acc):
                 w={'admin': 0, 'decline': 0.3, 'commit_event': 2}), on_job)
             # reach a state with 0-3 queued PRs
             nq = rng.choice([0, 1, 2, 3])
-            for _ in range(nq):
-                pr = g.new_pr(rng.choice(g.dests()))
+            # opened in one order, queued in another: the queue order is
+            # not the order of the pull request ids
+            opened = [g.new_pr(rng.choice(g.dests()), evaluate=False)
+                      for _ in range(nq)]
+            rng.shuffle(opened)
+            if [p['id'] for p in opened] != sorted(p['id'] for p in opened):
+                acc.count('c20_states_queued_out_of_id_order')
+            for pr in opened:
                 for _ in range(3):
                     rec = g.run('pr', pr['id'])
                     if rec['status'] == 'Queued':
